@@ -266,6 +266,14 @@ func rootsAtParameter(v ssa.Value, depth int) bool {
 			}
 		}
 		return len(x.Edges) > 0
+	case *ssa.Call:
+		// the pieces of a parameter: strings.Split / Fields / TrimSpace of it
+		if callee := x.Common().StaticCallee(); callee != nil && callee.Pkg != nil && callee.Pkg.Pkg.Path() == "strings" && len(x.Common().Args) > 0 {
+			switch callee.Name() {
+			case "Split", "SplitN", "Fields", "TrimSpace", "Trim":
+				return rootsAtParameter(x.Common().Args[0], depth+1)
+			}
+		}
 	}
 	return false
 }
